@@ -90,18 +90,34 @@ def from_model(m):
     raise ValueError('bad model %r' % (m,))
 
 
-def grid_from_model(m, version_given=True):
+def grid_from_model(m, version_given=True, style=None):
+    """Build the grid the way a user would.  Three documented ways exist and all must behave alike, so the style is
+    varied deterministically with the shape of the grid: 0 = item stores on MetadataObjects, 1 = plain dicts as column
+    metadata (README style), 2 = everything through the Grid constructor."""
     import hszinc
     _, ver, meta, cols, rows = m
-    g = hszinc.Grid(version=ver if version_given else None)
-    for kk, v in meta:
-        g.metadata[kk] = from_model(v)
-    for name, cmeta in cols:
-        g.column[name] = hszinc.MetadataObject()
-        for kk, v in cmeta:
-            g.column[name][kk] = from_model(v)
-    for row in rows:
-        g.append(dict((c, from_model(v)) for c, v in row))
+    if style is None:
+        style = (len(cols) + len(rows) + len(meta)) % 3
+    if style == 2:
+        g = hszinc.Grid(version=ver if version_given else None,
+                        metadata=dict((kk, from_model(v)) for kk, v in meta),
+                        columns=[(name, [(kk, from_model(v)) for kk, v in cmeta]) for name, cmeta in cols])
+    else:
+        g = hszinc.Grid(version=ver if version_given else None)
+        for kk, v in meta:
+            g.metadata[kk] = from_model(v)
+        for name, cmeta in cols:
+            if style == 1:
+                g.column[name] = dict((kk, from_model(v)) for kk, v in cmeta)
+            else:
+                g.column[name] = hszinc.MetadataObject()
+                for kk, v in cmeta:
+                    g.column[name][kk] = from_model(v)
+    if style == 1 and rows:
+        g.extend([dict((c, from_model(v)) for c, v in row) for row in rows])
+    else:
+        for row in rows:
+            g.append(dict((c, from_model(v)) for c, v in row))
     return g
 
 
